@@ -11,7 +11,7 @@ import corr_loader as cl
 import unicode_check
 from common import f2h
 
-SITES = ['load_file', 'load_multi', 'load_terminals', 'omen_load_rules', 'omen_load_ngrams', 'omen_load_length', 'omen_load_alphabet']
+SITES = ['load_file', 'load_multi', 'load_terminals', 'omen_load_rules', 'omen_load_ngrams', 'omen_load_length', 'omen_load_alphabet', 'cfg_filename_list', 'cfg_create', 'save_indexed', 'save_pcfg_data']
 TRUSTED = ['codec encode/decode round-trips for encodable text (CPython codecs are runtime)',
            'str(float) / float(str) round-trip', 'configparser / json round-trip of the file lists']
 ASSUMPTIONS = ['values are substrings (or lower-casings) of passwords accepted by check_valid and encodable in the ruleset encoding']
@@ -191,6 +191,7 @@ def run(ctx):
         exp.append(cl.real_load_terminals(p, enc))
         cases += 1
     # 3. a trained ruleset: config lists = files on disk; OMEN loaders of guesser and scorer agree
+    prev_train = None
     for rep in range(ctx.scale(2, 8)):
         enc = ['utf-8', 'cp1251', 'koi8-r', 'latin-1'][rep % 4] if rep % 4 != 3 else 'cp1251'
         letters = 'abcdeXY12! \xa0' + 'яж'          # incl. white space: the n-gram is the last field of an OMEN line
@@ -198,12 +199,19 @@ def run(ctx):
         for _ in range(rng.randint(8, 30)):
             pws.append(''.join(rng.choice(letters) for _ in range(rng.randint(1, 8))))
         pws += pws[:5]
+        if rep == 0:
+            # whatever the seed: keyboard walks, symbols, years and a context string, so that the next training (over the same
+            # rule directory) finds folders of categories it does not produce itself
+            pws = ['1qaz2wsx', 'zaq1!@#', 'pass1999', '#1love', '$$$', 'Ab12!'] + pws
+        elif rep == 1:
+            pws = ['password', 'hello', 'abc', 'Summer', 'password']
         tf = os.path.join(root, 'train.txt')
         with open(tf, 'wb') as f:
             f.write(('\n'.join(pws) + '\n').encode(enc))
         rd = os.path.join(common.scratch_dir('rules'), 'c07t')
         ngram = rng.choice([2, 3, 4])
-        ok, log = common.train(tf, rd, encoding=enc, ngram=ngram, coverage=0.6)
+        # every training after the first goes over the directory of the previous one (re-training under the same rule name)
+        ok, log = common.train(tf, rd, encoding=enc, ngram=ngram, coverage=0.6, keep=(rep > 0))
         cases += 1
         if not ok:
             continue
@@ -215,7 +223,8 @@ def run(ctx):
             ondisk = sorted(os.listdir(os.path.join(rd, folder)))
             if listed != ondisk:
                 viol.append({'property': 'C07', 'kind': 'config-file-list', 'section': sec, 'listed': listed, 'on_disk': ondisk,
-                             'witness': {'passwords': pws, 'encoding': enc}})
+                             'witness': {'passwords': pws, 'encoding': enc, 'previous': prev_train}})
+        prev_train = {'passwords': pws, 'encoding': enc}
         from lib_guesser.omen.input_file_io import load_rules
         from lib_scorer.omen_scorer import OmenScorer
         g = {}
@@ -280,4 +289,21 @@ def replay(ctx, payload):
         got = sorted(v for g in sec for v in g['values']) if ok else None
         if got != sorted(c):
             out.append({'kind': 'roundtrip', 'got': got})
+    elif 'passwords' in w:
+        # a trained ruleset (after the previous training into the same directory, if one is recorded): config lists = files on disk
+        rd = os.path.join(common.scratch_dir('rules'), 'c07replay')
+        tf = os.path.join(common.scratch_dir('c07'), 'replay_train.txt')
+        steps = ([w['previous']] if w.get('previous') else []) + [w]
+        for k, st in enumerate(steps):
+            with open(tf, 'wb') as f:
+                f.write(('\n'.join(st['passwords']) + '\n').encode(st['encoding']))
+            ok, _ = common.train(tf, rd, encoding=st['encoding'], ngram=3, coverage=0.6, keep=(k > 0))
+            if not ok:
+                return out
+        cfg = configparser.ConfigParser()
+        cfg.read(os.path.join(rd, 'config.ini'))
+        for sec, folder in (('BASE_A', 'Alpha'), ('BASE_D', 'Digits'), ('BASE_O', 'Other'), ('BASE_K', 'Keyboard'),
+                            ('BASE_X', 'Context'), ('BASE_Y', 'Years'), ('CAPITALIZATION', 'Capitalization')):
+            if sorted(json.loads(cfg.get(sec, 'filenames'))) != sorted(os.listdir(os.path.join(rd, folder))):
+                out.append({'kind': 'config-file-list', 'section': sec})
     return out
